@@ -294,7 +294,7 @@ pub fn property() -> Property {
             Box::new(GenPart {
                 name: "chains-end-to-end",
                 rule: "see property rule",
-                cases: (1_200_000, 5_000_000),
+                cases: (1_200_000, 25_000_000),
                 fuzz_decode: Some(crate::fuzzdec::c13_case),
                 strategy: chain_strategy,
                 check: check_chain,
@@ -303,7 +303,7 @@ pub fn property() -> Property {
             Box::new(GenPart {
                 name: "undecodable-combinations",
                 rule: "protocol type < 0x0100 with a chain not closed by that final mandatory extension",
-                cases: (360_000, 1_000_000),
+                cases: (360_000, 5_000_000),
                 fuzz_decode: None,
                 strategy: bad_strategy,
                 check: check_bad,
